@@ -6,5 +6,6 @@ F=$(readlink -f "$1"); REPO="${2:-/repo}"
 NAME=$(grep -o 'func Test[A-Za-z0-9_]*' "$F" | sed 's/func //' | paste -sd'|')
 mkdir -p /verif/out; OV=$(mktemp /verif/out/ov.XXXXXX.json)
 printf '{"Replace": {"%s/zz_verif_overlay_test.go": "%s"}}' "$REPO" "$F" > "$OV"
-(cd "$REPO" && go test -overlay "$OV" -vet=off -count=1 -timeout 120s -run "^(${NAME})\$" . 2>&1 | tail -15); RC=${PIPESTATUS[0]}
+RACE=""; grep -q 'go test -race' "$F" && RACE="-race"   # witnesses of data races say so in their header comment
+(cd "$REPO" && go test $RACE -overlay "$OV" -vet=off -count=1 -timeout 120s -run "^(${NAME})\$" . 2>&1 | tail -15); RC=${PIPESTATUS[0]}
 rm -f "$OV"; exit $RC
